@@ -81,6 +81,8 @@ class HashFileDB(ObjectDB):
         on_error: Optional[Callable[[str, BaseException], None]] = None,
         **kwargs,
     ) -> int:
+        from dvc_data.hashfile.state import StateNoop
+
         verify = kwargs.get("verify")
         if verify is None:
             verify = self.verify
@@ -95,6 +97,13 @@ class HashFileDB(ObjectDB):
                     self.check(o, check_hash=True)
                 except (ObjectFormatError, FileNotFoundError):
                     pass
+
+        # NOTE: objects that are already present are skipped below, i.e. nothing
+        # is written (or looked at) for them, so this call can't vouch for their
+        # contents in the hash state.
+        skipped: set[str] = set()
+        if check_exists and not isinstance(self.state, StateNoop):
+            skipped = {o for o in oids if self.exists(o)}
 
         transferred = super().add(
             paths,
@@ -126,6 +135,7 @@ class HashFileDB(ObjectDB):
             (
                 (cache_path, HashInfo(name=self.hash_name, value=o), None)
                 for o, cache_path in oid_cache_paths.items()
+                if o not in skipped
             ),
             self.fs,
         )
